@@ -148,8 +148,10 @@ def run_property(prop, tier, replay=None):
                     i = 0
                     while len(picked) < cap and any(groups[t] for t in order):
                         t = order[i % len(order)]
-                        if groups[t]:
-                            picked.append(groups[t].pop())
+                        # a schedule may ask for its class to be sampled more densely ("weight" picks per turn)
+                        for _ in range(int(groups[t][-1].get("weight", 1)) if groups[t] else 0):
+                            if groups[t] and len(picked) < cap:
+                                picked.append(groups[t].pop())
                         i += 1
                     scheds += picked
             sf = os.path.join(wd, "%s-%s.sched.jsonl" % (fname, fam.get("tag", "run")))
